@@ -216,6 +216,18 @@ static void b_fire(uint32_t tr)
                   enter(b); parsec_termdet_fourcounter_msg_dispatch(&parsec_ce, PARSEC_TERMDET_FOURCOUNTER_MSG_TAG, &copy, m.len, a, NULL); leave(b); break; }
     }
 }
+/* auxiliary invariant that keeps the state space finite: a per-wave accumulator or a message counter can never exceed the
+ * number of application messages sent so far (each rank contributes its counters once per wave). It holds in every reachable
+ * state of the unchanged module (established by the exhaustive runs themselves); when a change breaks it the waves are
+ * corrupted, the counters grow without bound and detection can no longer converge, which the closure-based liveness check
+ * could never observe. */
+static void b_invariant(void)
+{
+    uint32_t sent = (uint32_t)(MB - budget);
+    for (int r = 0; r < N; r++) { mon_t *m = MON(r);
+        if (m->acc_sent > sent || m->acc_received > sent) { vr_fail("wave accumulators of rank %d (sent %u / received %u) exceed the %u application message(s) ever sent: the per-wave sums are corrupted and keep growing, detection cannot converge", r, m->acc_sent, m->acc_received, sent); return; }
+        if (m->messages_sent > sent || m->messages_received > sent) { vr_fail("message counters of rank %d (sent %u / received %u) exceed the %u application message(s) ever sent", r, m->messages_sent, m->messages_received, sent); return; } }
+}
 static int b_goal(void)
 {
     if (net.n) return 0;
@@ -260,7 +272,7 @@ static void make_system(vr_system_t *s, int n, int t, int mb, int l)
 {
     memset(s, 0, sizeof(*s)); snprintf(s->name, sizeof(s->name), "fc_N%d_T%d_M%d_L%d", n, t, mb, l);
     T = t; MB = mb; L = l; net.canonical = 1;
-    s->init = b_init; s->encode = b_encode; s->decode = b_decode; s->enabled = b_enabled; s->fire = b_fire; s->is_goal = b_goal;
+    s->init = b_init; s->encode = b_encode; s->decode = b_decode; s->enabled = b_enabled; s->fire = b_fire; s->is_goal = b_goal; s->invariant = b_invariant;
     s->nontrivial = b_nontrivial; s->trname = b_trname; s->describe = b_describe;
 }
 
@@ -287,6 +299,7 @@ int main(int argc, char **argv)
     n = atoi(pa[1]); t = atoi(pa[2]); mb = atoi(pa[3]); l = atoi(pa[4]);
     if (n < 1 || n > MAXR) return 2;
     world_create(n); make_system(&sys, n, t, mb, l);
+    sys.max_states = 40000000;
     if (np >= 6) sys.max_states = (size_t)atol(pa[5]);
     vr_stats_t S; vr_search(&sys, 0, 1, &S);
     return sx_finish();
